@@ -510,6 +510,32 @@ func TestVerif_C18_Gather(t *testing.T) {
 				}
 			}
 		}
+		// the peer signals a passive TCP candidate: the agent creates active TCP host candidates of its own
+		// (one per local address) and publishes them — they are local candidates like any other
+		if rapid.IntRange(0, 3).Draw(rt, "peerSignalsPassiveTCP") == 0 {
+			raddr := rapid.SampledFrom([]string{"192.0.2.9", "127.0.0.1", "2001:db8::99", "::1"}).Draw(rt, "remoteTCPAddress")
+			if rc, err := NewCandidateHost(&CandidateHostConfig{Network: "tcp", Address: raddr, Port: 9, Component: 1, TCPType: TCPTypePassive}); err == nil {
+				_ = w.agent.AddRemoteCandidate(rc)
+				waitNoAddRemoteGoroutine()
+				for d := time.Now().Add(20 * time.Second); time.Now().Before(d); {
+					n := w.agent.candidateNotifier
+					n.Lock()
+					idle := !n.runningCandidates && len(n.candidates) == 0
+					n.Unlock()
+					if idle {
+						break
+					}
+					time.Sleep(50 * time.Microsecond)
+				}
+				w.eventsMu.Lock()
+				if len(w.cands) > len(published) {
+					lbl["active-tcp-candidates-published"] = true
+				}
+				published = append([]Candidate{}, w.cands...)
+				w.eventsMu.Unlock()
+				lbl["remote-passive-tcp:"+raddr] = true
+			}
+		}
 		local, _ := w.agent.GetLocalCandidates()
 		all := append(append([]Candidate{}, published...), local...)
 		// soundness
@@ -556,12 +582,14 @@ func TestVerif_C18_Gather(t *testing.T) {
 					fail(sig, "published %s: link-local / site-local / IPv4-compatible IPv6", c)
 				}
 			}
-			borrowed := (cfg.Mux == "udp" && !c.NetworkType().IsTCP()) || c.NetworkType().IsTCP()
+			// (active TCP candidates dial through a socket of the agent's own; passive ones sit on the mux's listener)
+			borrowed := (cfg.Mux == "udp" && !c.NetworkType().IsTCP()) || (c.NetworkType().IsTCP() && c.TCPType() != TCPTypeActive)
 			if c.Type() == CandidateTypeHost && !borrowed {
 				if _, ok := eligible[ip.String()]; !ok {
 					fail("C18/sound/ineligible-address", "host candidate on %s which the filters / loopback setting / interface state exclude (eligible: %v)", ip, eligible)
 				}
-				if cfg.PortMin != 0 && c.Port() < int(cfg.PortMin) || cfg.PortMax != 0 && c.Port() > int(cfg.PortMax) {
+				// (the port range is a range of UDP ports; an active TCP candidate dials from a port of the OS's choosing)
+				if !c.NetworkType().IsTCP() && (cfg.PortMin != 0 && c.Port() < int(cfg.PortMin) || cfg.PortMax != 0 && c.Port() > int(cfg.PortMax)) {
 					fail("C18/sound/port-out-of-range", "host candidate port %d outside %d-%d", c.Port(), cfg.PortMin, cfg.PortMax)
 				}
 			}
